@@ -467,7 +467,12 @@ fn sequential_case(ctx: &Ctx, ops: &[Op], case_id: usize) {
     }
     // finish any open iteration so that the server drains, then close
     if let Some((mut mc, _, _, _, _)) = iter.take() {
-        for _ in mc.by_ref() {}
+        // bounded: on a broken tree an iteration may yield errors for ever
+        for item in mc.by_ref().take(64) {
+            if item.is_err() {
+                break;
+            }
+        }
     }
     drop(last);
     drop(conn);
